@@ -230,6 +230,9 @@ void Cleaner::DoCleanRule(const Rule* rule) {
 
   for (vector<Edge*>::iterator e = state_->edges_.begin();
        e != state_->edges_.end(); ++e) {
+    // Do not remove phony targets
+    if ((*e)->is_phony())
+      continue;
     if ((*e)->rule().name() == rule->name()) {
       for (vector<Node*>::iterator out_node = (*e)->outputs_.begin();
            out_node != (*e)->outputs_.end(); ++out_node) {
